@@ -49,3 +49,29 @@ impl<T> VxIter<T> {
             !r ==> forall|i: int| 0 <= i < self@.len() ==> call_ensures(f, (#[trigger] self@[i],), false),
     { unimplemented!() }
 }
+
+/// R-iter: `X.iter().filter(f).last()`: the last element on which the predicate returned true
+#[verifier::external_body]
+pub fn vx_slice_filter_last<'a, T, F: Fn(&&'a T) -> bool>(s: &'a [T], f: F) -> (r: Option<&'a T>)
+    requires forall|i: int| 0 <= i < s@.len() ==> call_requires(f, (&&#[trigger] s@[i],))
+    ensures
+        match r {
+            Some(e) => exists|i: int| 0 <= i < s@.len() && *e == #[trigger] s@[i]
+                && call_ensures(f, (&&s@[i],), true)
+                && (forall|j: int| i < j < s@.len() ==> call_ensures(f, (&&#[trigger] s@[j],), false)),
+            None => forall|j: int| 0 <= j < s@.len() ==> call_ensures(f, (&&#[trigger] s@[j],), false),
+        }
+{ unimplemented!() }
+
+/// R-iter: `X.iter().find(f)`: the first element on which the predicate returned true
+#[verifier::external_body]
+pub fn vx_slice_find<'a, T, F: Fn(&&'a T) -> bool>(s: &'a [T], f: F) -> (r: Option<&'a T>)
+    requires forall|i: int| 0 <= i < s@.len() ==> call_requires(f, (&&#[trigger] s@[i],))
+    ensures
+        match r {
+            Some(e) => exists|i: int| 0 <= i < s@.len() && *e == #[trigger] s@[i]
+                && call_ensures(f, (&&s@[i],), true)
+                && (forall|j: int| 0 <= j < i ==> call_ensures(f, (&&#[trigger] s@[j],), false)),
+            None => forall|j: int| 0 <= j < s@.len() ==> call_ensures(f, (&&#[trigger] s@[j],), false),
+        }
+{ unimplemented!() }
